@@ -29,7 +29,7 @@ CONFIGS = [
 ]
 AUDIT_MOD = 7
 MAX_STORED_PER_SIG = 4
-UNKNOWN_NAME_SET = {n for _, n in wiregen.UNKNOWN_NAMES}
+UNKNOWN_NAME_SET = {n for _, n in wiregen.UNKNOWN_NAMES} | set(wiregen.RESERVED_NAMES)
 
 ROOT = "chuk_mcp.protocol.messages.roots.send_messages:Root"
 COMPLETION = "chuk_mcp.protocol.messages.completions.send_messages:CompletionResult"
@@ -97,6 +97,15 @@ def envelope_cases(tier: str) -> List[Dict[str, Any]]:
             if p is not absent:
                 w["params"] = p
             add("notification", f"{m}/params#{pi}", w)
+    # unknown top-level members of every name class (the family of vf.wiregen) on one envelope of each kind
+    bases = {"request": {"jsonrpc": "2.0", "id": "u-1", "method": "ping", "params": {"k": 1}},
+             "notification": {"jsonrpc": "2.0", "method": "notifications/message", "params": {"k": 1}},
+             "result": {"jsonrpc": "2.0", "id": 7, "result": {"k": 1}},
+             "error": {"jsonrpc": "2.0", "id": 7, "error": {"code": -32601, "message": "m"}}}
+    for kind, base in bases.items():
+        for nk, name in wiregen.UNKNOWN_NAMES + [("reserved:" + n, n) for n in wiregen.RESERVED_NAMES]:
+            out.append({"part": "envelopes", "target": "parse_message", "label": f"unknown:{nk}=scalar@<top>/{kind}",
+                        "wire": {**base, name: 7}})
     # batches (a list is what parse_message takes for one)
     for ii, i in enumerate(gen.IDS):
         add("batch", f"requests/id#{ii}", [{"jsonrpc": "2.0", "id": i, "method": "ping"},
@@ -217,6 +226,9 @@ def compare(case: Dict[str, Any], ap: Dict[str, Any], af: Dict[str, Any]) -> Dic
     head = f"{model} <- {wire_txt}"
     viol: List[Tuple[dict, str]] = []
     extra = envelope_shape(case["wire"]) if target == "parse_message" else {}
+    label = str(case.get("label") or "")
+    if label.startswith("unknown:"):
+        extra = {**extra, "unknown_member": label[len("unknown:"):].split("=", 1)[0]}
 
     broken = broken_invariants(case)
     if broken:
@@ -240,7 +252,7 @@ def compare(case: Dict[str, Any], ap: Dict[str, Any], af: Dict[str, Any]) -> Dic
         return {"status": "rejected-by-fallback", "violations": viol}
     for side, a in (("pydantic", ap), ("fallback", af)):
         if "dump_exc" in a:
-            viol.append(({"class": "dump-raised", "model": model, "backend": side, "exception": a["dump_exc"].get("exc")},
+            viol.append(({"class": "dump-raised", "model": model, "backend": side, "exception": a["dump_exc"].get("exc"), **extra},
                          f"{head}: model_dump(by_alias=True, exclude_none=True) raised under {side}: {a['dump_exc']}"))
     if viol:
         return {"status": "dump-raised", "violations": viol}
@@ -273,6 +285,35 @@ def compare(case: Dict[str, Any], ap: Dict[str, Any], af: Dict[str, Any]) -> Dic
                 sig["unknown_member"] = wiregen.name_kind(np_.rpartition(".")[2])
         viol.append((sig, f"{head}: dumps differ at '{p}' ({how}): Pydantic {json.dumps(_at(dp, p), ensure_ascii=True)[:120]} "
                           f"fallback {json.dumps(_at(df, p), ensure_ascii=True)[:120]}"))
+    # the JSON path: json.loads(model_dump_json(**kw)) must agree across the backends and with model_dump(**kw)
+    seen_dump = {(norm_path(p), how) for (p, how) in json_diffs(dp, df)}
+    jp_, jf_ = ap.get("json") or {}, af.get("json") or {}
+    for variant in jp_:
+        a, b = jp_[variant], jf_.get(variant)
+        if b is None:
+            continue
+        for side, r in (("pydantic", a), ("fallback", b)):
+            if "exc" in r:
+                viol.append(({"class": "json-dump-raised", "model": model, "backend": side, "variant": variant,
+                              "exception": r["exc"].get("exc"), **extra},
+                             f"{head}: model_dump_json({variant}) raised under {side}: {r['exc']}"))
+            elif r.get("vs_dump") or "vs_dump_exc" in r:
+                viol.append(({"class": "json-differs-from-dump", "model": model, "backend": side, "variant": variant,
+                              "field": norm_path(str(r.get("vs_dump") or "<model_dump raised>")), **extra},
+                             f"{head}: under {side} json.loads(model_dump_json({variant})) differs from model_dump({variant}) "
+                             f"at '{r.get('vs_dump')}': JSON form {json.dumps(dec(r['value']), ensure_ascii=True)[:200]}"))
+        if "value" in a and "value" in b:
+            va, vb = dec(a["value"]), dec(b["value"])
+            for (p, how) in json_diffs(va, vb):
+                if any(p == d or p.startswith(d + ".") or p.startswith(d + "[") for d in differing):
+                    continue
+                if (norm_path(p), how) in seen_dump:
+                    continue                              # the same difference already shows in model_dump
+                seen_dump.add((norm_path(p), how))
+                viol.append(({"class": "json-dump-differs", "model": model, "variant": variant, "field": norm_path(p),
+                              "how": how, **extra},
+                             f"{head}: json.loads(model_dump_json({variant})) differs at '{p}' ({how}): Pydantic "
+                             f"{json.dumps(_at(va, p), ensure_ascii=True)[:120]} fallback {json.dumps(_at(vb, p), ensure_ascii=True)[:120]}"))
     return {"status": "agree" if not viol else "disagree", "violations": viol}
 
 
